@@ -178,3 +178,64 @@ def run_pv(inverters: list[tuple[float, float]], power: float, outcomes: dict[in
             return {"result": out, "calls": calls, "error": err, "ids": ids, "elapsed": loop.time()}
     finally:
         pvm.ComponentPoolStatusTracker = saved
+
+
+class BatterySession:
+    """One BatteryManager instance serving several requests in sequence (cheaper than
+    one instance per request; every request sees the same component data)."""
+
+    def __init__(self, groups: list[dist.GroupSpec]):
+        self.groups = groups
+
+    def __enter__(self):
+        self._saved = bm.ComponentPoolStatusTracker
+        bm.ComponentPoolStatusTracker = StubTracker
+        comps, conns, self.layout = battery_topology(self.groups)
+        self._loop_cm = virtual_loop(wall=False)
+        self.loop = self._loop_cm.__enter__()
+        self._mg_cm = fakes.fake_microgrid(comps, conns)
+        self.cm = self._mg_cm.__enter__()
+        self.api = self.cm.api_client
+        st = Broadcast(name="st")
+        res = Broadcast(name="res")
+        self._keep = (st, res)
+        self.rx = res.new_receiver()
+        self.m = bm.BatteryManager(st.new_sender(), res.new_sender(), timedelta(seconds=TIMEOUT_S))
+        self.loop.create_task(self.m.start())
+        self.loop.settle()
+        for gi, g in enumerate(self.groups):
+            for bi, b in enumerate(g.bats):
+                self.api.push(fakes.bat(100 * (gi + 1) + bi, soc=b.soc, cap=b.cap, il=-b.incl * b.lower_scale,
+                                        el=-b.excl * b.lower_scale, eu=b.excl, iu=b.incl, sl=b.sl, su=b.su))
+            for ii, i in enumerate(g.invs):
+                self.api.push(fakes.inv(100 * (gi + 1) + 10 + ii, il=-i.incl * i.lower_scale,
+                                        el=-i.excl * i.lower_scale, eu=i.excl, iu=i.incl))
+        self.loop.settle()
+        self.all_bats = {b for bats, _ in self.layout for b in bats}
+        return self
+
+    def request(self, power: float, adjust_power: bool = True, outcomes: dict | None = None):
+        self.api.on_set_power = make_outcome_fn(outcomes or {})
+        n0 = len(self.api.set_power_calls)
+        t = self.loop.create_task(self.m.distribute_power(
+            Request(power=Power.from_watts(power), component_ids=set(self.all_bats), adjust_power=adjust_power)))
+        self.loop.settle()
+        while not t.done() and self.loop.advance_to_next_timer(horizon=self.loop.time() + TIMEOUT_S * 3):
+            self.loop.settle()
+        out = self.rx.consume() if len(self.rx) else None
+        err = None
+        if not t.done():
+            err = "distribute_power never returned"
+        elif t.exception() is not None:
+            err = repr(t.exception())
+        return {"result": out, "calls": self.api.set_power_calls[n0:], "error": err}
+
+    def __exit__(self, *exc):
+        try:
+            self.loop.create_task(self.m.stop())
+            self.loop.settle()
+        finally:
+            self._mg_cm.__exit__(None, None, None)
+            self._loop_cm.__exit__(None, None, None)
+            bm.ComponentPoolStatusTracker = self._saved
+        return False
